@@ -129,8 +129,12 @@ class _:
     ensures = {}
     raises = {"ConsumerFetchSizeTooSmall[C12]": "True", "ChecksumError": "True", "KafkaError": "True", "Exception": "True"}
     partial = {"too-small-means-nothing-delivered[C12]": ("ConsumerFetchSizeTooSmall", "len(yielded) == 0")}
-    loops = {"while#1": dict(index="n", decreases="len(data) - cur", inv=["0 <= cur and cur <= len(data)",
-                                                                           "implies(not read_message, len(yielded) == 0)"]),
+    # C12: a complete entry whose checksum fails is never taken for a cut-short tail - neither reported as a too-small
+    # fetch (raise#1) nor used to end the set quietly (return#1); `entry` is the position the current iteration began at
+    checkpoints = {"raise#1": {"corrupt-entry-is-not-a-small-fetch[C12]": "not entry_complete_but_corrupt(data, entry)"},
+                   "return#1": {"corrupt-entry-does-not-end-the-set-quietly[C12]": "not entry_complete_but_corrupt(data, entry)"}}
+    loops = {"while#1": dict(index="n", decreases="len(data) - cur", ghosts={"entry": "cur"},
+                             inv=["0 <= cur and cur <= len(data)", "implies(not read_message, len(yielded) == 0)"]),
              "while#1/for#1": dict(index="k", inv=["0 <= cur and cur <= len(data)", "pre(cur) == cur",
                                                     "implies(not read_message, len(yielded) == 0)",
                                                     "implies(k > 0, read_message)"])}
